@@ -1514,6 +1514,9 @@ def run(ctx):
     if "line_oob" in kinds:
         known_seen.add("C05-K2 note written by the rebase / cherry-pick content replay: lists lines beyond the end of the file")
 
+    # concrete histories first (the replay files are written for the first five)
+    prio = {"squash-deleted-witness": 0, "history": 1, "fanout": 2, "fanout-natural": 2}
+    violations.sort(key=lambda v: prio.get(v[1].get("kind") if isinstance(v[1], dict) else None, 5))
     return {
         "obligations": obligations,
         "violations": violations,
